@@ -91,7 +91,7 @@ def run(rep):
     proof_ok = C.proof_step(rep, "C08")
     C.ensure_driver()
     fsdbh = C.ensure_harness()
-    sk = LS.check(rep, fsdbh, ["Store", "UpdateTx"])
+    sk = LS.check(rep, fsdbh, ["Store", "UpdateTx", "Get", "GetFiles"])      # snapshot look-ups run under the store's lock
     known = {f["id"]: f for f in C.known_findings("C08") if f.get("status") == "open"}
     # 1. scripted witnesses
     wit = [c for c in P.corpus("conc_witnesses.txt") if c.split("\n")[0].split()[1] in ("d9", "d10")]
